@@ -62,10 +62,19 @@ PROPS = {
         trusted_base=[SHA, CODEC],
         assumptions=["requested wareIDs are base58 strings (the property's quantifier)"],
     ),
+    "C09": dict(
+        level="proof",
+        lean=["Rio.Props.C09"],
+        engines=["cache"],
+        classes=["shelf-not-verified", "cache-temp-left", "cache-panic", "concurrent-unpack-failed", "bad-ware-accepted"],
+        rule='cache: cases of 1-3 wares (good / missing / corrupt / mislabelled in the warehouse; each with a setuid file and foreign owners) and 2-4 concurrent unpackers with random filters (lossless, uid=n, uid=mine, mtime+setid=ignore, setid=reject) and placement modes, optionally a pre-warmed shelf; a random schedule of their cache-protocol steps is forced on real goroutines by a barrier in the cache.* instrumentation points, one process possibly abandoned mid-way (crash); outcomes, shelf listing (each shelf re-hashed by the independent reference) and leftover temp dirs are compared with the Lean transition system run on the same schedule. Distinct = distinct (processes, schedule) cases.',
+        trusted_base=["guid.New() names are fresh (temp dirs of different processes never coincide)", "rename(2) is atomic and fails with EEXIST/ENOTEMPTY on a non-empty directory", "the unpack tool's contract (ok rid only after writing the complete fileset rid): C03 + C02"],
+        assumptions=["preemption inside one protocol step (between two instrumentation points) is not exhibited; power loss is out of scope (rio never fsyncs)"],
+    ),
     "C12": dict(
         level="proof",
         lean=["Rio.Props.C12"],
-        engines=["filt", "unpack"],
+        engines=["filt", "unpack", "cache"],
         classes=["filter-reject", "filter-attr", "filter-dev-ignore", "filter-stack", "filter-prehash", "filter-warm-cache"],
         rule="filt: every complete pack filter (3x2x3x2x3x3) and unpack filter (3x3x2x2x3x3) setting x a zoo of 42 entries (all kinds x setid/sticky/plain perms), quick tier a third of them; stacking of partial filters over the CLI defaults. unpack: generated filesets encoded as tar, unpacked (nilfs) under random filters; oracle = independent Go implementation of the documented per-attribute rule + reference tree hash of the filtered fileset. Distinct = distinct (filter, entry) pairs / wareIDs.",
         trusted_base=[SHA, CODEC],
